@@ -6,7 +6,12 @@ for p in sorted(glob.glob(os.path.join(os.path.dirname(os.path.dirname(os.path.a
     m = json.load(open(p))
     runs = m.get("checks_run_against_it", [])
     det = "; ".join("%s: %s (%.0f s)" % (r["check"].replace("./check ", ""), r["verdict"], r["wall_s"]) for r in runs)
-    first = "caught as written" if not m.get("history") else "missed / inconclusive at first, caught after strengthening"
+    h = (m.get("history") or [""])[0]
+    first = "caught as written"
+    if h.startswith("NOT CAUGHT"):
+        first = "NOT caught (stated limit)"
+    elif h:
+        first = "missed / inconclusive at first, caught after strengthening"
     s = (m.get("summary") or "").replace("|", "/").replace("\n", " ")
     if len(s) > 170:
         s = s[:167] + "..."
